@@ -1,0 +1,255 @@
+//go:build verif
+
+// Contracts for the tars2go parser (property C16: the tool terminates on every input), checked by /verif/govc.
+// Comments only. The termination measure is the lexer's: lexM(unread bytes, look-ahead byte); every token
+// other than Eof that the parser obtains decreases it, so every parser loop and the recursion of parseType
+// must obtain a non-Eof token per round or stop. No frame conditions are given (the syntax tree is built in
+// place); nil dereferences and index errors are not excluded here: they end the run with a Go panic that
+// gencode.Gen recovers and prints, which is termination with a diagnostic.
+
+package parse
+
+//@ pred parseOK(p) = p != nil && p.lex != nil && lexOK(p.lex)
+//
+//@ func (*Parse).parseErr
+//@   maypanic
+//@   ensures false
+//
+//@ func (*Parse).next
+//@   requires parseOK(p)
+//@   let M0 = lexM(len(p.lex.buff.bytes), p.lex.current)
+//@   let lex0 = p.lex
+//@   noframe
+//@   allocates
+//@   maypanic
+//@   ensures p.tarsFile == old(p.tarsFile)
+//@   ensures parseOK(p) && p.lex == lex0 && p.tk != nil
+//@   ensures lexM(len(p.lex.buff.bytes), p.lex.current) <= M0
+//@   ensures [C16] p.tk.T != token.Eof ==> lexM(len(p.lex.buff.bytes), p.lex.current) < M0
+//@   opaque lexM
+//@   termination [C16]
+//
+//@ func (*Parse).expect
+//@   requires parseOK(p)
+//@   let M0 = lexM(len(p.lex.buff.bytes), p.lex.current)
+//@   let lex0 = p.lex
+//@   noframe
+//@   allocates
+//@   maypanic
+//@   ensures p.tarsFile == old(p.tarsFile)
+//@   ensures parseOK(p) && p.lex == lex0 && p.tk != nil && p.tk.T == t
+//@   ensures lexM(len(p.lex.buff.bytes), p.lex.current) <= M0
+//@   ensures [C16] t != token.Eof ==> lexM(len(p.lex.buff.bytes), p.lex.current) < M0
+//@   opaque lexM
+//@   termination [C16]
+//
+//@ func (*Parse).makeUnsigned
+//@   maypanic
+//@   modifies utype.Unsigned
+//
+// parseType: recursion measure (lexM, current token is not Eof): a recursive call is made only after
+// the cursor has moved, or (after `unsigned`) onto the next token, which ends the recursion if it is Eof.
+//
+//@ func (*Parse).parseType
+//@   requires parseOK(p) && p.tk != nil
+//@   let M0 = lexM(len(p.lex.buff.bytes), p.lex.current)
+//@   let lex0 = p.lex
+//@   noframe
+//@   allocates
+//@   maypanic
+//@   ensures parseOK(p) && p.lex == lex0 && p.tk != nil
+//@   ensures lexM(len(p.lex.buff.bytes), p.lex.current) <= M0
+//@   decreases lexM(len(p.lex.buff.bytes), p.lex.current), (p.tk.T != token.Eof ? 1 : 0)
+//@   opaque lexM
+//@   termination [C16]
+//
+//@ func (*Parse).parseEnum
+//@   requires parseOK(p)
+//@   let M0 = lexM(len(p.lex.buff.bytes), p.lex.current)
+//@   let lex0 = p.lex
+//@   noframe
+//@   allocates
+//@   maypanic
+//@   ensures parseOK(p) && p.lex == lex0
+//@   ensures lexM(len(p.lex.buff.bytes), p.lex.current) <= M0
+//@   loop 0 invariant parseOK(p) && p.lex == lex0 && p.tk != nil && lexM(len(p.lex.buff.bytes), p.lex.current) <= M0
+//@   loop 0 modifies everything
+//@   loop 1 invariant parseOK(p) && p.lex == lex0 && lexM(len(p.lex.buff.bytes), p.lex.current) <= M0
+//@   loop 1 decreases lexM(len(p.lex.buff.bytes), p.lex.current)
+//@   loop 1 modifies everything
+//@   opaque lexM
+//@   termination [C16]
+//
+//@ func (*Parse).parseStructMemberDefault
+//@   requires parseOK(p)
+//@   let M0 = lexM(len(p.lex.buff.bytes), p.lex.current)
+//@   let lex0 = p.lex
+//@   noframe
+//@   allocates
+//@   maypanic
+//@   ensures parseOK(p) && p.lex == lex0 && lexM(len(p.lex.buff.bytes), p.lex.current) <= M0
+//@   opaque lexM
+//@   termination [C16]
+//
+// parseStructMember: a member (non-nil result) is returned only after a tag token has been consumed.
+//
+//@ func (*Parse).parseStructMember
+//@   requires parseOK(p)
+//@   let M0 = lexM(len(p.lex.buff.bytes), p.lex.current)
+//@   let lex0 = p.lex
+//@   noframe
+//@   allocates
+//@   maypanic
+//@   ensures parseOK(p) && p.lex == lex0 && lexM(len(p.lex.buff.bytes), p.lex.current) <= M0
+//@   ensures [C16] result != nil ==> lexM(len(p.lex.buff.bytes), p.lex.current) < M0
+//@   opaque lexM
+//@   termination [C16]
+//
+//@ func (*Parse).checkTag
+//@   allocates
+//@   maypanic
+//@   opaque lexM
+//@   termination [C16]
+//
+// sortTag wraps sort.Sort on the member list: trusted to terminate and to touch nothing but that list.
+//
+//@ func (*Parse).sortTag
+//@   trusted
+//@   noframe
+//@   ensures p.lex == old(p.lex) && (parseOK(p) == old(parseOK(p))) && lexM(len(p.lex.buff.bytes), p.lex.current) == old(lexM(len(p.lex.buff.bytes), p.lex.current)) && p.tarsFile == old(p.tarsFile)
+//
+//@ func (*Parse).parseStruct
+//@   requires parseOK(p)
+//@   let M0 = lexM(len(p.lex.buff.bytes), p.lex.current)
+//@   let lex0 = p.lex
+//@   noframe
+//@   allocates
+//@   maypanic
+//@   ensures parseOK(p) && p.lex == lex0 && lexM(len(p.lex.buff.bytes), p.lex.current) <= M0
+//@   loop 0 invariant parseOK(p) && p.lex == lex0 && p.tk != nil && lexM(len(p.lex.buff.bytes), p.lex.current) <= M0
+//@   loop 0 modifies everything
+//@   loop 1 invariant parseOK(p) && p.lex == lex0 && lexM(len(p.lex.buff.bytes), p.lex.current) <= M0
+//@   loop 1 decreases lexM(len(p.lex.buff.bytes), p.lex.current)
+//@   loop 1 modifies everything
+//@   opaque lexM
+//@   termination [C16]
+//
+// parseInterfaceFun: a function (non-nil result) is returned only after its first token has been consumed.
+//
+//@ func (*Parse).parseInterfaceFun
+//@   requires parseOK(p)
+//@   let M0 = lexM(len(p.lex.buff.bytes), p.lex.current)
+//@   let lex0 = p.lex
+//@   noframe
+//@   perreturn
+//@   allocates
+//@   maypanic
+//@   ensures parseOK(p) && p.lex == lex0 && lexM(len(p.lex.buff.bytes), p.lex.current) <= M0
+//@   ensures [C16] result != nil ==> lexM(len(p.lex.buff.bytes), p.lex.current) < M0
+//@   loop 0 invariant parseOK(p) && p.lex == lex0 && p.tk != nil && fun != nil && lexM(len(p.lex.buff.bytes), p.lex.current) < M0
+//@   loop 0 decreases lexM(len(p.lex.buff.bytes), p.lex.current)
+//@   loop 0 modifies everything
+//@   opaque lexM
+//@   termination [C16]
+//
+//@ func (*Parse).parseInterface
+//@   requires parseOK(p)
+//@   let M0 = lexM(len(p.lex.buff.bytes), p.lex.current)
+//@   let lex0 = p.lex
+//@   noframe
+//@   allocates
+//@   maypanic
+//@   ensures parseOK(p) && p.lex == lex0 && lexM(len(p.lex.buff.bytes), p.lex.current) <= M0
+//@   loop 0 invariant parseOK(p) && p.lex == lex0 && p.tk != nil && lexM(len(p.lex.buff.bytes), p.lex.current) <= M0
+//@   loop 0 modifies everything
+//@   loop 1 invariant parseOK(p) && p.lex == lex0 && lexM(len(p.lex.buff.bytes), p.lex.current) <= M0
+//@   loop 1 decreases lexM(len(p.lex.buff.bytes), p.lex.current)
+//@   loop 1 modifies everything
+//@   opaque lexM
+//@   termination [C16]
+//
+//@ func (*Parse).parseConst
+//@   requires parseOK(p)
+//@   let M0 = lexM(len(p.lex.buff.bytes), p.lex.current)
+//@   let lex0 = p.lex
+//@   noframe
+//@   allocates
+//@   maypanic
+//@   ensures parseOK(p) && p.lex == lex0 && lexM(len(p.lex.buff.bytes), p.lex.current) <= M0
+//@   opaque lexM
+//@   termination [C16]
+//
+//@ func (*Parse).parseHashKey
+//@   requires parseOK(p)
+//@   let M0 = lexM(len(p.lex.buff.bytes), p.lex.current)
+//@   let lex0 = p.lex
+//@   noframe
+//@   allocates
+//@   maypanic
+//@   ensures parseOK(p) && p.lex == lex0 && lexM(len(p.lex.buff.bytes), p.lex.current) <= M0
+//@   loop 0 invariant parseOK(p) && p.lex == lex0 && lexM(len(p.lex.buff.bytes), p.lex.current) <= M0
+//@   loop 0 decreases lexM(len(p.lex.buff.bytes), p.lex.current)
+//@   loop 0 modifies everything
+//@   opaque lexM
+//@   termination [C16]
+//
+//@ func (*Parse).parseModuleSegment
+//@   requires parseOK(p)
+//@   let M0 = lexM(len(p.lex.buff.bytes), p.lex.current)
+//@   let lex0 = p.lex
+//@   noframe
+//@   allocates
+//@   maypanic
+//@   ensures parseOK(p) && p.lex == lex0 && lexM(len(p.lex.buff.bytes), p.lex.current) <= M0
+//@   loop 0 invariant parseOK(p) && p.lex == lex0 && lexM(len(p.lex.buff.bytes), p.lex.current) <= M0
+//@   loop 0 decreases lexM(len(p.lex.buff.bytes), p.lex.current)
+//@   loop 0 modifies everything
+//@   opaque lexM
+//@   termination [C16]
+//
+// Include files are parsed by a nested NewParse (file system, include-chain check): outside the contract.
+//
+//@ func (*Parse).analyzeDepend
+//@   trusted
+//@   noframe
+//@   maypanic
+//
+//@ func newParse
+//@   trusted
+//@   allocates
+//@   maypanic
+//@   ensures result != nil && fresh(result) && parseOK(result) && fresh(result.lex) && result.tarsFile != nil && fresh(result.tarsFile)
+//
+// parseModule: trusted. Besides calling parseModuleSegment (under contract) it only does the bookkeeping for
+// several modules in one file (one range loop over already parsed files) and the include analysis.
+//
+//@ func (*Parse).parseModule
+//@   trusted
+//@   requires parseOK(p) && p.tarsFile != nil
+//@   let M0 = lexM(len(p.lex.buff.bytes), p.lex.current)
+//@   noframe
+//@   allocates
+//@   maypanic
+//@   ensures parseOK(p) && p.tarsFile != nil && lexM(len(p.lex.buff.bytes), p.lex.current) <= M0
+//
+//@ func (*Parse).parseInclude
+//@   requires parseOK(p) && p.tarsFile != nil
+//@   let M0 = lexM(len(p.lex.buff.bytes), p.lex.current)
+//@   let lex0 = p.lex
+//@   noframe
+//@   allocates
+//@   maypanic
+//@   ensures parseOK(p) && p.lex == lex0 && p.tarsFile != nil && lexM(len(p.lex.buff.bytes), p.lex.current) <= M0
+//@   opaque lexM
+//@   termination [C16]
+//
+//@ func (*Parse).parse
+//@   requires parseOK(p) && p.tarsFile != nil
+//@   noframe
+//@   allocates
+//@   maypanic
+//@   loop 0 invariant parseOK(p) && p.tarsFile != nil
+//@   loop 0 decreases lexM(len(p.lex.buff.bytes), p.lex.current)
+//@   loop 0 modifies everything
+//@   opaque lexM
+//@   termination [C16]
